@@ -5,7 +5,8 @@
 (* `---` documents of one file, and the target alone: the three projects must be equal.                                *)
 EXTENDS Merge
 
-CONSTANTS Triples     \* BOOLEAN: also base + two overrides
+CONSTANTS Triples,    \* BOOLEAN: also base + two overrides
+          Cross       \* BOOLEAN: also two attributes in the base, one of them overridden (thorough)
 
 Port(t, p, extra) == M([k \in {"target", "published", "protocol"} \cup DOMAIN extra |->
                           IF k = "target" THEN I(t) ELSE IF k = "published" THEN S(p) ELSE IF k = "protocol" THEN S("tcp") ELSE extra[k]])
@@ -89,7 +90,16 @@ Next == /\ IsSeed
            \* a tag in a document that is not the last one: its effect must not outlive that document
            \/ Triples /\ \E b \in a.alts : \E o1 \in a.alts : \E o2 \in a.alts : cs' = Case(a, b, <<Place(a, Tagged(o1, "override")), Place(a, o2)>>)
            \/ Triples /\ \E b \in a.alts : \E o2 \in a.alts : cs' = Case(a, b, <<Place(a, Tagged(Null, "reset")), EmptyDocFor(a), Place(a, o2)>>)
-Spec == Init /\ [][Next]_cs
+\* two attributes in the base (the second one merged in by the specification itself), the override mentions the first only
+CrossCase(a1, b1, a2, b2, o) ==
+  LET base == OverrideAll(Base(a1, b1), <<Place(a2, b2)>>) IN
+  [attr |-> a1.n, base |-> base, overs |-> <<Place(a1, o)>>, target |-> OverrideAll(base, <<Place(a1, o)>>),
+   path |-> (IF a1.top THEN <<>> ELSE <<"services", "a">>) \o a1.p]
+CrossNext == /\ IsSeed /\ Cross
+             /\ \E j \in 1..Len(Attrs) : j # cs.seed /\ Attrs[j].n # Attrs[cs.seed].n /\
+                  \E b1 \in Attrs[cs.seed].alts : \E o \in Attrs[cs.seed].alts :
+                    LET b2 == CHOOSE x \in Attrs[j].alts : TRUE IN cs' = CrossCase(Attrs[cs.seed], b1, Attrs[j], b2, o)
+Spec == Init /\ [][Next \/ CrossNext]_cs
 
 \* ---- laws of the specification
 RECURSIVE At(_, _)
